@@ -84,12 +84,28 @@ def run(tier):
                           function=sn.d['fn'], file=fnf)
     # uses of the global: only inside the lookup function
     for ix in prog.index.values():
+        # the lookup "module": lltd_state_for_iface and the static helpers all of whose callers belong to it
+        callers = {}
+        for fname, fn in ix.functions.items():
+            for n in walk(fn):
+                if n.get('kind') == 'CallExpr' and n.get('inner'):
+                    c = callee(n)
+                    if c:
+                        callers.setdefault(c, set()).add(fname)
+        module = {'lltd_state_for_iface'}
+        grew = True
+        while grew:
+            grew = False
+            for fname, fn in ix.functions.items():
+                if fname not in module and fn.get('storageClass') == 'static' and callers.get(fname) and callers[fname] <= module:
+                    module.add(fname)
+                    grew = True
         for fname, fn in ix.functions.items():
             if not is_core(fn):
                 continue
             for n in walk(fn):
                 if n.get('kind') == 'DeclRefExpr' and n.get('referencedDecl', {}).get('name') == 'g_iface_states':
-                    rep.check(fname == 'lltd_state_for_iface', 'R17.2', 'global-use|%s' % fname,
+                    rep.check(fname in module, 'R17.2', 'global-use|%s' % fname,
                               'the interface list is accessed in %s, outside the context-keyed lookup' % fname, node=n, function=fname)
     # ---- R17.3 lockset over the daemons that parse here
     daemons = [('systemd', 'os/linux/daemon/linux-main.c'), ('embedded', 'os/linux/daemon/linux-embedded-main.c')]
@@ -130,7 +146,9 @@ def run(tier):
             analysed.append({'daemon': main, 'start_routine': sname, 'created_in_loop': in_loop, 'functions_reachable': len(reach), 'lock_calls': locked,
                              'shared_accesses': sorted(set((f, g) for f, g, _, _ in touched))})
             for fname, nm, n, ix in touched:
-                key = '%s|%s|%s' % (os.path.relpath(n['_file'], REPO), fname, nm)
+                # the instance is the shared object (file + variable), not the function that happens to touch it: splitting
+                # the lookup into helpers neither creates nor removes the race
+                key = '%s|%s' % (os.path.relpath(n['_file'], REPO), nm)
                 rep.check(locked or not in_loop, 'R17.3', key,
                           '%s: start routine %s (one thread per interface, created in a loop in %s) reaches %s, which reads/writes the shared `%s` without any lock - '
                           'two interfaces receiving their first frames together race on the list head' % (main, sname, creator, fname, nm), node=n, function=fname)
